@@ -166,6 +166,7 @@ BUILTIN_FNS = {
     "ais": ("Sq.ais", [MSG], OPT(STR)),
     "get_downlink_format": ("getDownlinkFormat", [MSG], OPT(NAT())),
     "get_hex_message": (None, [MSG], STR),
+    "reminder": ("Sq.reminder", [MSG], NAT()),
 }
 
 # builtins that need the environment (float / global-state code that stays hand-modelled) or the clock
@@ -180,6 +181,9 @@ BUILTIN_FNS.update({
 })
 NEEDS_ENV = {"track_and_groundspeed", "get_observer_coords", "haversine"}
 NEEDS_NOW = {"now"}
+
+# plans of the bit / CRC / frame layer: translated with the wrapping `<<`, calling each other by their translated names
+BITS_PLANS = {"TransBits.lean", "TransFrame.lean"}
 
 # long methods emitted as one definition per top-level block
 SPLIT = {"Plane.update_from_mode_s", "Mds.update"}
@@ -218,6 +222,10 @@ class FnTr:
         self.tmp = 0
         self.calls = set()
         self.uses = set()
+        # functions of the bit / CRC / frame layer (TransBits.lean): `<<` is the wrapping shift of the operand's width, and
+        # other translated functions are called by their translated names (the older plans call the hand model's names,
+        # which the bridges of Proofs/BridgeBits.lean identify with the translated ones)
+        self.bits = getattr(fn, "plan", None) in BITS_PLANS
 
     def fresh(self, base="t"):
         self.tmp += 1
@@ -413,6 +421,24 @@ class FnTr:
             return "(" + ", ".join(p[0] for p in parts) + ")", ("tuple", [p[1] for p in parts])
         if k == "field":
             return self.tr_field(e, env)
+        if k == "index" and e[2][0] == "range":
+            base, bty = self.tr(e[1], env)
+            if bty[0] not in ("msg", "list", "str"):
+                raise TErr("slice of " + str(bty))
+            rng = e[2]
+            if rng[3]:
+                raise TErr("inclusive slice range")
+            out = par(base)
+            if rng[1] is not None:
+                lo, _ = self.tr(rng[1], env, NAT(64))
+                out = f"({out}.drop {par(lo)})"
+                if rng[2] is not None:
+                    hi, _ = self.tr(rng[2], env, NAT(64))
+                    out = f"({out}.take ({hi} - {par(lo)}))"
+            elif rng[2] is not None:
+                hi, _ = self.tr(rng[2], env, NAT(64))
+                out = f"({out}.take {par(hi)})"
+            return out, bty
         if k == "index":
             base, bty = self.tr(e[1], env)
             if bty[0] == "msg":
@@ -472,6 +498,9 @@ class FnTr:
             raise TErr("range value outside contains()/for")
         if k == "array":
             parts = [self.tr(x, env, expect[1] if expect and expect[0] in ("arr", "list") else None) for x in e[1]]
+            if len(parts) != 2:
+                ety = parts[0][1]
+                return "[" + ", ".join(p[0] for p in parts) + "]", (MSG if ety[0] == "nat" else ("list", ety))
             return "(" + ", ".join(p[0] for p in parts) + ")", ("arr", parts[0][1], len(parts))
         raise TErr(f"expression {k}")
 
@@ -529,6 +558,8 @@ class FnTr:
                 b, tb = self.tr(r, env, ta)
             ty = ta
         A, B = par(a), par(b)
+        if ty[0] == "nat" and op == "<<" and self.bits:
+            return f"shlW {ty[1]} {A} {B}", ty
         if ty[0] == "nat":
             sym = {"+": "+", "-": "-", "*": "*", "/": "/", "%": "%", "<<": "<<<", ">>": ">>>", "&": "&&&", "|": "|||", "^": "^^^"}[op]
             return f"{A} {sym} {B}", ty
@@ -609,10 +640,14 @@ class FnTr:
         if cl[0] != "closure":
             raise TErr("closure expected")
         env2 = dict(env)
-        if len(cl[1]) != 1:
-            raise TErr("closure arity")
-        p = cl[1][0]
-        ptxt = self.pat(p, argty, env2)
+        if isinstance(argty, list):
+            if len(cl[1]) != len(argty):
+                raise TErr("closure arity")
+            ptxt = " ".join(par(self.pat(p, t, env2)) for p, t in zip(cl[1], argty))
+        else:
+            if len(cl[1]) != 1:
+                raise TErr("closure arity")
+            ptxt = self.pat(cl[1][0], argty, env2)
         body, bty = self.tr(cl[2], env2, expect_ret)
         return f"fun {ptxt} => {body}", bty
 
@@ -648,7 +683,11 @@ class FnTr:
                 return self.emit_call(key, args, env)
             if name == "default" and f"{tyname}.new" in self.ctx.sigs:     # `impl Default` forwards to `new`
                 return self.emit_call(f"{tyname}.new", args, env)
-        if name in self.ctx.sigs:
+        if len(segs) == 1 and name in env and env[name][0] == "fn":
+            _, ptys, ret = env[name]
+            parts = [par(self.tr(a, env, t)[0]) for a, t in zip(args, ptys)]
+            return f"{lname(name)} " + " ".join(parts), ret
+        if name in self.ctx.sigs and (self.bits or name not in BUILTIN_FNS):
             return self.emit_call(name, args, env)
         if name == "now" and len(segs) >= 2 and segs[-2] == "Utc":
             self.uses.add("now")
@@ -697,8 +736,50 @@ class FnTr:
             a, _ = self.tr(recv_e, env)
             b, _ = self.tr(args[0], env)
             return f"durationMs {par(a)} {par(b)}", ("duration",)
+        if name in ("chars", "to_vec", "enumerate"):
+            return self.tr(recv_e, env, expect)
+        if name in ("expect", "unwrap") and recv_e[0] == "mcall" and recv_e[2] == "try_into":
+            # integer conversions that cannot fail on a 64-bit target (u32 -> usize)
+            t, ty = self.tr(recv_e[1], env, expect)
+            if ty[0] != "nat":
+                raise TErr("try_into on " + str(ty))
+            return t, (expect if expect and expect[0] == "nat" else ty)
         recv, rt = self.tr(recv_e, env)
         RV = par(recv)
+        if rt[0] in ("msg", "list", "str"):
+            et = NAT() if rt[0] == "msg" else CHAR if rt[0] == "str" else rt[1]
+            def lst(t):
+                return MSG if t[0] == "nat" else STR if t[0] == "char" else ("list", t)
+            if name == "len":
+                return f"{RV}.length", NAT(64)
+            if name == "filter_map":
+                f, bty = self.closure_fun(args[0], et, env, None)
+                if bty[0] != "opt":
+                    raise TErr("filter_map closure")
+                return f"{RV}.filterMap {par(f)}", lst(bty[1])
+            if name == "map":
+                f, bty = self.closure_fun(args[0], et, env, None)
+                return f"{RV}.map {par(f)}", lst(bty)
+            if name == "filter":
+                f, _ = self.closure_fun(args[0], et, env, BOOL)
+                return f"{RV}.filter {par(f)}", rt
+            if name == "fold":
+                init, ity = self.tr(args[0], env, expect)
+                f, _ = self.closure_fun(args[1], [ity, et], env, ity)
+                return f"{RV}.foldl {par(f)} {par(init)}", ity
+            if name == "collect":
+                return recv, rt
+            raise TErr(f"slice/iterator method {name}")
+        if rt[0] == "char" and name == "to_digit":
+            if not (args and args[0][0] == "lit_int" and args[0][1] == 16):
+                raise TErr("to_digit with a radix other than 16")
+            return f"charToDigit16 {RV}", OPT(NAT())
+        if rt[0] == "opt" and name in ("expect", "unwrap"):
+            et = rt[1]
+            if et[0] != "nat":
+                raise TErr(f"{name} on Option of {et}")
+            # TRAP site (listed in the C01 inventory): the unchecked translation totalises with 0
+            return f"{RV}.getD 0", et
         if rt[0] == "duration":
             if name == "num_seconds":
                 return f"Int.tdiv {RV} 1000", INT(64)
@@ -823,6 +904,8 @@ class FnTr:
             arm_tr = lambda body, env2: self.tr_block_value(body, env2, expect) if body[0] == "block" else self.tr(body, env2, expect)
         scrut_e, arms = e[1], e[2]
         s, sty = self.tr(scrut_e, env)
+        if sty[0] == "opt" and any(self.some_refutable(p) for p, _, _ in arms):
+            return self.tr_match_opt(s, sty, arms, env, arm_tr)
         binding = any(self.arm_binds(p) for p, _, _ in arms)
         if not binding:
             # literal / range / or patterns: an if-chain, as the hand-written model writes them
@@ -862,6 +945,65 @@ class FnTr:
             ty = self.join_ty(ty, bty) if ty else bty
             lines.append(f"| {pt} => {bt}")
         return f"(match {s} with\n" + "\n".join(lines) + ")", ty
+
+    def some_refutable(self, p):
+        """`Some(P)` whose inner pattern can fail to match (literal, range, or-pattern, `x @ P`)"""
+        if p[0] == "p_ts" and p[1][-1] == "Some":
+            q = p[2][0]
+            while q[0] in ("p_ref", "p_paren"):
+                q = q[1]
+            return q[0] in ("p_lit", "p_range", "p_or", "p_bind")
+        return False
+
+    def tr_match_opt(self, s, sty, arms, env, arm_tr):
+        """first-match over `Some(P)` / `None` / `_` arms:  match s with | some v => if-chain over v | none => ..."""
+        v = self.fresh("o")
+        some_chain, none_txt, ty = [], None, None
+        closed = False
+        for p, g, body in arms:
+            if g is not None:
+                raise TErr("guard on an Option arm")
+            if p[0] == "p_ts" and p[1][-1] == "Some":
+                q = p[2][0]
+                env2 = dict(env)
+                pre = ""
+                if q[0] == "p_bind":
+                    env2[q[1]] = sty[1]
+                    pre = f"let {lname(q[1])} := {v};\n"
+                    q = q[2]
+                if q[0] == "p_ident":
+                    env2[q[1]] = sty[1]
+                    pre = f"let {lname(q[1])} := {v};\n"
+                    c = None
+                else:
+                    c = self.pat_test(q, v, sty[1], env2)
+                bt, bty = arm_tr(body, env2)
+                ty = self.join_ty(ty, bty) if ty else bty
+                if not closed:
+                    some_chain.append((c, par_block(pre + bt) if pre else bt))
+                    closed = c is None
+            elif p[0] == "p_path" and p[1][-1] == "None":
+                bt, bty = arm_tr(body, dict(env))
+                ty = self.join_ty(ty, bty) if ty else bty
+                if none_txt is None:
+                    none_txt = bt
+            elif p[0] == "p_wild":
+                bt, bty = arm_tr(body, dict(env))
+                ty = self.join_ty(ty, bty) if ty else bty
+                if not closed:
+                    some_chain.append((None, bt))
+                    closed = True
+                if none_txt is None:
+                    none_txt = bt
+                break
+            else:
+                raise TErr("Option arm " + p[0])
+        if not closed or none_txt is None:
+            raise TErr("Option match without a catch-all")
+        txt = some_chain[-1][1]
+        for c, bt in reversed(some_chain[:-1]):
+            txt = f"if {c} then {bt} else {txt}"
+        return f"(match {s} with\n| some {v} => {txt}\n| none => {none_txt})", ty
 
     def arm_binds(self, p):
         k = p[0]
@@ -1069,6 +1211,20 @@ class FnTr:
                 env2 = dict(env)
                 pt = self.pat(pat, dty or oty, env2)
                 return f"match {ot} with\n| none => none\n| some {par(pt)} => {par_block(cont(env2))}"
+            if init[0] == "closure" and pat[0] == "p_ident":
+                env_c = dict(env)
+                ptys = []
+                names = []
+                for q in init[1]:
+                    if q[0] != "p_ident":
+                        raise TErr("closure parameter pattern")
+                    env_c[q[1]] = NAT()          # untyped closure parameters of this crate are u32
+                    ptys.append(NAT())
+                    names.append(lname(q[1]))
+                body, bty = self.tr(init[2], env_c)
+                env2 = dict(env)
+                env2[pat[1]] = ("fn", ptys, bty)
+                return f"let {lname(pat[1])} := fun {' '.join(names)} => {body};\n" + cont(env2)
             acc = set()
             self.assigned(init, acc, env)
             acc = [v for v in sorted(acc) if v in env or v == "self"]
@@ -1391,6 +1547,31 @@ class FnTr:
     def tr_for(self, e, env, cont, acc):
         _, pat, it, body = e
         inner = it[1] if it[0] == "paren" else it
+        if inner[0] == "mcall" and inner[2] in ("iter", "enumerate"):
+            enum = inner[2] == "enumerate"
+            src = inner[1]
+            while src[0] == "mcall" and src[2] == "iter":
+                src = src[1]
+            xs, xty = self.tr(src, env)
+            if xty[0] not in ("msg", "list"):
+                raise TErr("for over " + str(xty))
+            et = NAT() if xty[0] == "msg" else xty[1]
+            if not acc:
+                return cont(env)
+            st = self.state_tuple(acc)
+            env2 = dict(env)
+            if enum:
+                if pat[0] != "p_tuple" or len(pat[1]) != 2:
+                    raise TErr("enumerate pattern")
+                ip = self.pat(pat[1][0], NAT(64), env2)
+                xp = self.pat(pat[1][1], et, env2)
+                ptxt = f"({xp}, {ip})"
+                xs = f"{par(xs)}.zipIdx"
+            else:
+                ptxt = self.pat(pat, et, env2)
+            fin = lambda env3: st
+            b = self.seq(body[1], body[2], env2, fin, None, {}, allow_return=False)
+            return (f"let {st} := {par(xs)}.foldl (fun st_ {par(ptxt)} =>\n  let {st} := st_;\n  {b}) {st};\n" + cont(env))
         if inner[0] != "range" or inner[1] is None or inner[2] is None:
             raise TErr("for over something that is not a literal range")
         lo, _ = self.tr(inner[1], env, NAT())
@@ -1478,6 +1659,8 @@ class FnTr:
             params.append(f"(self : {lty(self.self_ty)})")
         for p, t in fn.params:
             ty = rty(t, fn.impl_of)
+            if ty == ("sstr",):
+                ty = STR           # a `&str` parameter is text to be read (List Char); `&'static str` results stay String
             if p[0] != "p_ident":
                 raise TErr("parameter pattern")
             env[p[1]] = ty
@@ -1510,10 +1693,23 @@ def indent(t, n):
 
 # ------------------------------------------------------------------------------------------------------------
 # which functions are translated: (file, [function keys]); everything else referred to must be in BUILTIN_FNS
+TRANSLATE_BITS = [
+    ("src/decoder/utils/calc.rs", ["bit_location", "range_value", "flag_and_range_value", "status_flag_and_range_value"]),
+    ("src/decoder/downlink.rs", ["get_downlink_format"]),
+    ("src/decoder/utils/crc.rs", ["crc56", "crc112", "get_crc", "parity_ok"]),
+    ("src/decoder/utils/ma_code.rs", ["ma_code"]),
+    ("src/decoder/adsb/altitude/graytobin.rs", ["extract_bit", "graytobin"]),
+    ("src/decoder/utils/format.rs", ["clean_squitter"]),
+]
+
+TRANSLATE_FRAME = [
+    ("src/decoder/utils.rs", ["get_message"]),
+    ("src/decoder/adsb/icao.rs", ["get_icao"]),
+]
+
 TRANSLATE = [
     ("src/decoder/utils.rs", ["get_message_type", "get_capability"]),
     ("src/decoder/utils/me_code.rs", ["me_code"]),
-    ("src/decoder/downlink.rs", []),
     ("src/decoder/adsb/vertical_rate.rs", ["vertical_rate_value", "vertical_rate"]),
     ("src/decoder/adsb/version.rs", ["version"]),
     ("src/decoder/adsb/surveillance_status.rs", ["surveillance_status"]),
@@ -1523,7 +1719,7 @@ TRANSLATE = [
     ("src/decoder/adsb/altitude.rs", ["altitude_value", "altitude"]),
     ("src/decoder/adsb/squawk.rs", ["squawk"]),
     ("src/decoder/adsb/acas.rs", ["threat_encounter"]),
-    ("src/decoder/adsb/ais.rs", ["ia5"]),
+    ("src/decoder/adsb/ais.rs", ["ia5", "ais"]),
     ("src/decoder/adsb/icao.rs", ["get_wake_turbulence_category"]),
     ("src/decoder/adsb/position.rs", ["cpr"]),
     ("src/decoder/ehs/base.rs", ["ground_track", "heading"]),
@@ -1569,16 +1765,18 @@ TRANSLATE_PLANE = [
 
 # (output file, imports, plan, structs emitted in this file)
 PLANS = [
-    ("Trans.lean", "import SqModel.Model.RustPrim", TRANSLATE,
+    ("TransBits.lean", "import SqModel.Model.RustPrimBits", TRANSLATE_BITS, []),
+    ("TransFrame.lean", "import SqModel.Generated.TransBits\nimport SqModel.Model.Crc", TRANSLATE_FRAME, []),
+    ("Trans.lean", "import SqModel.Model.RustPrim\nimport SqModel.Generated.TransFrame", TRANSLATE,
      ["Capability", "SelectedVerticalIntention", "TrackAndTurn", "HeadingAndSpeed", "Meteo"]),
     ("TransPlane.lean", "import SqModel.Generated.Trans", TRANSLATE_PLANE, ["Srt", "Ext", "Mds", "DF", "Plane"]),
 ]
 
 
-def load_all(repo):
+def load_all(repo, plans=None):
     ctx = Ctx()
     wanted = {}
-    for out, _, plan, _ in PLANS:
+    for out, _, plan, _ in (plans or PLANS):
         wanted[out] = []
         for rel, keys in plan:
             fns, structs = R.parse_file(open(os.path.join(repo, rel)).read())
@@ -1593,16 +1791,18 @@ def load_all(repo):
                     raise TErr(f"{rel}: function {k} not found (renamed or removed?)")
                 fn = byk[k]
                 fn.file = rel
+                fn.plan = out
                 ctx.fns[k] = fn
                 wanted[out].append(k)
-            # every other non-test function of a translated file must be accounted for
+            # every other non-test function of a translated file must be accounted for (translated in some plan, or listed)
+            elsewhere = {k2 for _, _, plan2, _ in PLANS for rel2, keys2 in plan2 if rel2 == rel for k2 in keys2}
             for k in byk:
-                if k not in keys and k.split(".")[-1].split("<")[0] not in NOT_TRANSLATED.get(rel, ()):
+                if k not in elsewhere and k.split(".")[-1].split("<")[0] not in NOT_TRANSLATED.get(rel, ()):
                     raise TErr(f"{rel}: function {k} is neither translated nor listed as hand-modelled (new function?)")
     for ks in wanted.values():
         for k in ks:
             fn = ctx.fns[k]
-            ptys = [rty(t, fn.impl_of) for _, t in fn.params]
+            ptys = [STR if rty(t, fn.impl_of) == ("sstr",) else rty(t, fn.impl_of) for _, t in fn.params]
             ret = rty(fn.ret, fn.impl_of) if fn.ret is not None else UNIT
             st = ("struct", fn.impl_of) if fn.impl_of else None
             if fn.self_kind == "mut":
@@ -1613,10 +1813,8 @@ def load_all(repo):
 
 # functions of translated files that stay hand-modelled (float arithmetic, iterators, formatting, I/O, enum dispatch)
 NOT_TRANSLATED = {
-    "src/decoder/utils.rs": ("get_message", "get_hex_message"),
-    "src/decoder/downlink.rs": ("get_downlink_format",),
-    "src/decoder/adsb/ais.rs": ("ais",),
-    "src/decoder/adsb/icao.rs": ("get_icao",),
+    "src/decoder/utils.rs": ("get_hex_message",),
+    "src/decoder/utils/crc.rs": ("reminder",),
     "src/decoder/adsb/position.rs": ("cpr_location", "signed_lon", "fixed_lat", "nl", "pmod"),
     "src/decoder/ehs/base.rs": ("track_and_groundspeed",),
     "src/decoder/bds/bds_1_7.rs": ("default",), "src/decoder/bds/bds_4_0.rs": ("default",), "src/decoder/bds/bds_5_0.rs": ("default",),
@@ -1794,9 +1992,32 @@ def toposort(wanted, deps):
     return order
 
 
-def translate_all(repo, header, errors):
-    """-> {output file: text}"""
-    ctx, wanted = load_all(repo)
+# process-wide or interior-mutable state anywhere in the crate (non-test code).  The model has none except the observer
+# position (a parameter of the model): a memo, cache, counter or flag that outlives one call makes a decoder's result
+# depend on earlier calls, which no theorem about the pure model covers - so its appearance is a broken obligation.
+GLOBAL_STATE_TOKENS = {"static", "lazy_static", "thread_local", "OnceLock", "OnceCell", "LazyLock", "LazyCell", "RefCell", "Cell", "unsafe"}
+GLOBAL_STATE_EXPECTED = {("src/decoder/observer.rs", "lazy_static"), ("src/decoder/observer.rs", "static")}
+
+
+def global_state_inventory(repo):
+    found = set()
+    for d, _, files in os.walk(os.path.join(repo, "src")):
+        for f in sorted(files):
+            if f.endswith(".rs"):
+                path = os.path.join(d, f)
+                for kind, v in R.tokenize(R.strip_tests(open(path).read())):
+                    if kind == "ident" and (v in GLOBAL_STATE_TOKENS or v.startswith("Atomic")):
+                        found.add((os.path.relpath(path, repo), v))
+    return found
+
+
+def translate_all(repo, header, errors, only=None):
+    """-> {output file: text};  only: the output files wanted (a prefix of PLANS in dependency order)"""
+    extra = global_state_inventory(repo) - GLOBAL_STATE_EXPECTED
+    if extra:
+        raise TErr("process-wide / interior-mutable state that the model does not have: " + ", ".join(f"{f} ({t})" for f, t in sorted(extra)))
+    plans = [p for p in PLANS if only is None or p[0] in only]
+    ctx, wanted = load_all(repo, plans)
     allk = [k for ks in wanted.values() for k in ks]
     # pass 1: what every function uses (clock, environment) and calls
     uses, deps = {}, {}
@@ -1828,7 +2049,7 @@ def translate_all(repo, header, errors):
             errors.append(f"{ctx.fns[k].file} :: {k}: {e}")
             bodies[k] = None
     texts = {}
-    for out, imports, plan, structs in PLANS:
+    for out, imports, plan, structs in plans:
         lines = [header, imports, "", "namespace Sq", "set_option linter.unusedVariables false", ""]
         for sname in structs:
             if sname not in ctx.structs:
